@@ -40,6 +40,14 @@ def cases(seed, tier):
             out.append({'family': fam, 'tau': 0.4, 'mode': 'param', 'n': small,
                         'rs': int(rng.integers(1 << 31)), 'seed_kind': 'none',
                         'seed': int(rng.integers(1 << 31))})
+        # many tiny batches: sample(1) / sample(2) repeated (batch-level shortcuts see one or two rows)
+        for tau in (0.8, 0.5):
+            out.append({'family': fam, 'tau': tau, 'mode': 'tiny-batches', 'n': 1, 'calls': 300 if tier == 'quick' else 2000,
+                        'rs': int(rng.integers(1 << 31)), 'seed_kind': 'int', 'seed': int(rng.integers(1 << 31))})
+    # the independence end of the Gumbel range (theta = 1, tau = 0)
+    for s2 in range(2 if tier == 'quick' else 8):
+        out.append({'family': 'gumbel', 'tau': 0.0, 'mode': 'param', 'n': n, 'rs': int(rng.integers(1 << 31)),
+                    'seed_kind': 'int', 'seed': int(rng.integers(1 << 31))})
     return out
 
 
@@ -68,6 +76,8 @@ def run_case(spec, ctx):
     tau_model = float(ref.tau())
     where['theta'] = theta
 
+    if spec['mode'] == 'tiny-batches':
+        return _tiny(spec, ctx, model, fam, theta, where, bb)
     with interpose.record_random(bb) as log:
         ok, out = ctx.call(model.sample, n)
     if not ok:
@@ -137,3 +147,33 @@ def run_case(spec, ctx):
     if recorded:
         ctx.nontriv('%s|%r|%d|%s' % (fam, tau, spec['rs'], spec['mode']))
     ctx.sample({'family': fam, 'theta': theta, 'n': n, 'first_rows': out[:2].tolist()})
+
+
+def _tiny(spec, ctx, model, fam, theta, where, bb):
+    """sample(1) and sample(2) repeated: every row must still be the Rosenblatt transform of its draws."""
+    rows_u, rows_v, rows_c = [], [], []
+    for k in range(spec['calls']):
+        n = 1 if k % 3 else 2
+        with interpose.record_random(bb) as log:
+            ok, out = ctx.call(model.sample, n)
+        if not ok:
+            ctx.violation('sample.call', 'C09:' + exc_mech(out), dict(exc_detail(out), **where))
+            return
+        draws = [e for e in log if e['fn'] == 'uniform']
+        out = np.asarray(out, dtype=float)
+        if out.shape != (n, 2) or len(draws) != 2:
+            ctx.violation('sample.shape', 'C09:shape', dict(where, shape=list(out.shape), n=n))
+            return
+        rows_u.extend(out[:, 0]); rows_v.extend(draws[0]['result']); rows_c.extend(draws[1]['result'])
+        ctx.check(np.array_equal(out[:, 1], draws[0]['result']), 'sample.second-column-is-v', 'C09:second-column-not-v', where)
+    u, v, c = np.array(rows_u), np.array(rows_v), np.array(rows_c)
+    delta = 4e-12 + 4 * np.spacing(u)
+    lo = arch.h_array(fam, theta, np.clip(u - delta, 1e-300, 1 - 1e-17), v)
+    hi = arch.h_array(fam, theta, np.clip(u + delta, 1e-300, 1 - 1e-17), v)
+    slack = 1e-6 * c + 1e-8
+    bad = ~((lo <= c + slack) & (hi >= c - slack))
+    k = int(np.argmax(bad))
+    ctx.check(not bad.any(), 'sample.rosenblatt', 'C09:not-rosenblatt-transform',
+              lambda: dict(where, u=u[k], v=v[k], c=c[k], h_below=lo[k], h_above=hi[k], rows_bad=int(bad.sum())))
+    ctx.ok('sample.rosenblatt', len(u) - 1)
+    ctx.nontriv('%s|%r|tiny|%d' % (fam, spec['tau'], spec['rs']))
